@@ -326,8 +326,10 @@ func (f *Face) GlyphVOrigin(glyph GID) (x, y int32, found bool) {
 
 		fontExtents, _ := f.FontHExtents()
 		advance := fontExtents.Ascender - fontExtents.Descender
-		diff := advance - -extents.Height
-		y = int32(extents.YBearing + (diff / 2))
+		// integer arithmetic, with a flooring shift : halving in floating
+		// point and truncating rounds toward zero when the result is negative
+		diff := int32(advance) - -int32(extents.Height)
+		y = int32(extents.YBearing) + (diff >> 1)
 		return x, y, true
 	}
 
